@@ -18,6 +18,7 @@ import (
 	"regexp"
 	"strconv"
 	"strings"
+	"sync"
 	"time"
 
 	"github.com/elliotchance/gedcom/v39"
@@ -719,6 +720,53 @@ func RecordBuild(w io.Writer, seed int64, n int) error {
 	return nil
 }
 
+// Concurrent decodes many small documents, each with tags nobody has used before, on several goroutines at once (one
+// decoder per goroutine, nothing shared by the caller) and then decodes the same texts one after the other: every
+// concurrent result must be the sequential one.  A crash of the process is the observation the runner looks at.
+func Concurrent(w io.Writer, seed int64, n int) error {
+	const G = 8
+	texts := make([][]string, G)
+	for g := range texts {
+		for k := 0; k < n; k++ {
+			texts[g] = append(texts[g], fmt.Sprintf("0 HEAD\n1 _H%dx%dx%d a\n0 @I%d@ INDI\n1 NAME n /s/\n1 _T%dx%d v\n2 _U%dx%d w\n1 BIRT\n2 DATE 1 Jan 19%02d\n0 @F%d@ FAM\n1 HUSB @I%d@\n1 _V%d\n0 TRLR\n",
+				seed%97, g, k, k, g, k, k, g, k%100, k, k, k*G+g))
+		}
+	}
+	got := make([][]string, G)
+	var wg sync.WaitGroup
+	for g := 0; g < G; g++ {
+		wg.Add(1)
+		go func(g int) {
+			defer wg.Done()
+			for _, t := range texts[g] {
+				doc, err := gedcom.NewDecoder(strings.NewReader(t)).Decode()
+				if err != nil {
+					got[g] = append(got[g], "error: "+err.Error())
+				} else {
+					got[g] = append(got[g], doc.String())
+				}
+			}
+		}(g)
+	}
+	wg.Wait()
+	mism := 0
+	for g := range texts {
+		for k, t := range texts[g] {
+			doc, err := gedcom.NewDecoder(strings.NewReader(t)).Decode()
+			want := ""
+			if err != nil {
+				want = "error: " + err.Error()
+			} else {
+				want = doc.String()
+			}
+			if want != got[g][k] || want != t {
+				mism++
+			}
+		}
+	}
+	return json.NewEncoder(w).Encode(map[string]int{"decodes": G * n, "mismatches": mism})
+}
+
 // Main dispatches the codec subcommands.
 func Main(args []string) error {
 	seed, _ := strconv.ParseInt(os.Getenv("VERIF_SEED"), 10, 64)
@@ -742,6 +790,8 @@ func Main(args []string) error {
 		return Record(os.Stdout, seed, num(1, 1000), num(2, 0))
 	case "record-build":
 		return RecordBuild(os.Stdout, seed, num(1, 200))
+	case "concurrent":
+		return Concurrent(os.Stdout, seed, num(1, 300))
 	}
 	return fmt.Errorf("codec: unknown subcommand %q", args[0])
 }
